@@ -111,7 +111,7 @@ func (s *Stmt) QueryContext(ctx context.Context, args []driver.NamedValue) (driv
 		NamedValues: args,
 	}
 
-	ret, err := executor.ExecWithNamedValue(context.Background(), execCtx,
+	ret, err := executor.ExecWithNamedValue(ctx, execCtx,
 		func(ctx context.Context, query string, args []driver.NamedValue) (types.ExecResult, error) {
 			ret, err := stmt.QueryContext(ctx, args)
 			if err != nil {
